@@ -1,10 +1,13 @@
 """C18 — evaluation never performs an invalid memory access
 (core/src/eval/value/{mod,lens}.rs, core/src/eval/cache/lazy.rs, core/src/eval/stack.rs)."""
 import copy
+import json
 import os
 import re
 import subprocess
+import time
 from vlib import core
+from checks import c18_translate
 
 META = {
     "claimed": False,
@@ -338,7 +341,6 @@ def run_hist(ck, cases, hook):
 
 
 def build_harness(ck, hook):
-    import time
     t = time.time()
     rc, out = core.cargo_build(["c18"], features=["h7"] if hook else None)
     ck.coverage["harness_build_s"] = round(time.time() - t, 1)
@@ -349,16 +351,163 @@ def build_harness(ck, hook):
     return True
 
 
+def pregen(repo=None):
+    """Writes coq/Gen/StackTables.v and coq/Gen/UnsafeSites.v from the sources of /repo (needed before
+    any Coq build of Mem/Stack*.v, Mem/Ledger.v, Props/C18*.v)."""
+    return c18_translate.generate(repo)
+
+
+# --------------------------------------------------------------------------- stack scripts (hook H7)
+
+def gen_script(rng, maxlen):
+    ops = []
+    n = rng.range(3, maxlen)
+    for _ in range(n):
+        c = rng.below(100)
+        if c < 50:
+            ops.append(rng.below(10))                    # push of a kind
+        elif c < 72:
+            ops.append(10 + rng.below(10))               # typed pop
+        elif c < 80:
+            ops.append(rng.choice([20, 21]))             # pop_arg / pop_arg_as_idx
+        elif c < 86:
+            ops.append(22)                               # peek_sealed_cont
+        elif c < 90:
+            ops.append(23)                               # clear_eqs
+        elif c < 93:
+            ops.append(24)                               # unwind
+        elif c < 97:
+            ops.append(25)                               # drop_top
+        else:
+            ops.append(rng.choice([26, 27]))
+    return ".".join(map(str, ops))
+
+
+def run_stack(ck, scripts):
+    exe_impl = core.harness_bin("c18")
+    rc1, impl_out, e1 = core.run_sharded(exe_impl, ["stack"], scripts)
+    rc2, model_out, e2 = core.run_sharded(ck.model_exe, ["stack"], scripts)
+    if rc1 or rc2:
+        ck.obligation("stack-correspondence-run", "internal", False, "rc=%s/%s %s %s" % (rc1, rc2, e1[-800:], e2[-800:]))
+    for sc, a, b in zip(scripts, impl_out, model_out):
+        ck.case(key="stack:" + sc, nontrivial=(sc.count(".") >= 5))
+        ck.hist("stack_script_length", min((sc.count(".") + 1) // 10 * 10, 60))
+        if a.startswith("!PANIC"):
+            ck.violation("stack-panic", "the evaluation stack panicked while replaying a script of its own operations",
+                         {"stack_script": sc, "impl": a[:300]})
+        elif b.startswith("!"):
+            ck.obligation("stack-model:error-state-reached", "correspondence", False, "script %s : %s" % (sc, b))
+        elif a != b:
+            ck.obligation("correspondence:stack-model-vs-rust", "correspondence", False,
+                          "script %s\nimpl  %s\nmodel %s" % (sc, a[:500], b[:500]))
+
+
+# --------------------------------------------------------------------------- whole programs
+
+PROG_TEMPLATES = [
+    # arrays, folds, persistent vector sharing
+    "let xs = std.array.generate (fun i => i * %(a)d) %(n)d in std.array.fold_left (+) 0 (xs @ xs @ std.array.map (fun x => x + 1) xs)",
+    "let xs = std.array.generate (fun i => {v = i, w = [i, i + %(a)d]}) %(n)d in std.array.map (fun r => r.w) xs |> std.array.flatten |> std.array.length",
+    # records, recursive fields, merge with overriding (revertible thunks, saturate)
+    "let r = {a = %(a)d, b = a + 1, c = b * 2, d = {e = c, f = a}} in (r & {a | force = %(b)d}).d",
+    "let base = {x | default = %(a)d, y = x + 1, z = [x, y]} in [base, base & {x = %(b)d}, base & {x = %(n)d} & {w = 1}]",
+    "{a = {b = {c = %(a)d}}} & {a = {b = {d = %(b)d}}} & {a.e = [%(n)d]}",
+    # string interpolation (StrChunk / StrAcc stack items), nested
+    "let s = \"x%%{std.string.from_number %(a)d}y%%{\"in%%{std.string.from_number %(b)d}ner\"}z\" in std.string.length s + %(n)d",
+    "std.array.generate (fun i => \"k%%{std.string.from_number i}\") %(n)d |> std.string.join \",\"",
+    # equality on structures (Eq stack items), incl. failure midway
+    "[[%(a)d, {x = [1, 2, {y = %(b)d}]}], \"s\"] == [[%(a)d, {x = [1, 2, {y = %(b)d}]}], \"s\"]",
+    "{a = [1, 2, %(a)d], b = {c = \"x\"}} == {a = [1, 2, %(b)d], b = {c = \"x\"}}",
+    # contracts: labels carry a thunk (arg_idx), blame unwinds the stack
+    "let f | Number -> Number = fun x => x + %(a)d in std.array.map f (std.array.generate (fun i => i) %(n)d)",
+    "([%(a)d, %(b)d, \"no\"] | Array Number) |> std.array.length",
+    "let C = std.contract.from_predicate (fun x => x > %(a)d) in ({v = %(b)d} | {v | C}).v",
+    "{x | {y | Number, z | String}} & {x = {y = %(a)d, z = %(b)d}}",
+    # laziness, black-holing, infinite recursion, deep recursion (budget exhaustion mid-way)
+    "let rec f = fun n => if n == 0 then 0 else 1 + f (n - 1) in f %(big)d",
+    "let rec loop = fun n => loop (n + 1) in loop %(a)d",
+    "{a = b, b = a}.a",
+    "let x = [1, 2, x] in std.array.length x + %(a)d",
+    "let rec fib = fun n => if n < 2 then n else fib (n - 1) + fib (n - 2) in fib %(fib)d",
+    # deep_seq / force / lock bit on thunks
+    "%%deep_seq%% {a = [1, {b = %(a)d}], c = {d = [%(b)d]}} \"done\"",
+    "%%force%% (std.array.generate (fun i => {k = i, l = [i]}) %(n)d)",
+    # enums, match, typed blocks
+    "let f = match { 'A x => x + %(a)d, 'B => %(b)d, _ => 0 } in [f ('A 1), f 'B, f 'C]",
+    "(let id : forall a. a -> a = fun x => x in id %(a)d) + (std.array.fold_right (fun x acc => x + acc) 0 [1, 2, %(b)d])",
+    # errors in the middle of a data structure
+    "{ok = %(a)d, bad = 1 + \"s\", after = [1, 2]}",
+    "std.array.map (fun x => if x == %(a)d then std.fail_with \"boom\" else x) (std.array.generate (fun i => i) %(n)d)",
+    "std.record.map (fun k v => v + %(a)d) {p = 1, q = 2, r = \"x\"}",
+    "let r = std.record.insert \"k%(a)d\" %(b)d {base = [1]} in std.record.remove \"base\" r",
+    "std.serialize 'Json {a = [%(a)d, {b = \"x\"}], c = null} |> std.deserialize 'Json",
+    "std.array.sort (fun x y => if x < y then 'Lesser else if x > y then 'Greater else 'Equal) (std.array.generate (fun i => (i * %(a)d) %% 7) %(n)d)",
+]
+
+
+def gen_programs(rng, n):
+    out = []
+    for _ in range(n):
+        t = rng.choice(PROG_TEMPLATES)
+        params = dict(a=rng.below(9) + 1, b=rng.below(9) + 1, n=rng.choice([0, 1, 2, 5, 33, 40]),
+                      big=rng.choice([3, 50, 400]), fib=rng.choice([2, 8, 14]))
+        prog = t % params
+        # the same program completes, fails, or is abandoned (budget) at different points
+        fuel = rng.choice([0, 7, 40, 200, 1000, 5000, 2000000, 2000000])
+        out.append("%d\t%s" % (fuel, prog.replace("\\", "\\\\").replace("\n", "\\n")))
+    return out
+
+
+def run_progs(ck, progs):
+    exe_impl = core.harness_bin("c18")
+    rc, outs, err = core.run_sharded(exe_impl, ["prog"], progs, timeout=1500)
+    if rc:
+        # a crash of the harness process itself (abort / segfault) is the property failing
+        ck.violation("prog-abort", "the harness process died while evaluating a generated program (abort / signal)",
+                     {"stderr": err[-1500:], "programs": progs[:50]})
+    for p, o in zip(progs, outs):
+        ck.case(key="prog:" + p, nontrivial=True)
+        cls = o.split(" ")[1] if o.startswith("ERR ") else o.split(" ")[0]
+        ck.hist("program_outcome", cls)
+        if o.startswith("ERR Panic"):
+            fuel, prog = p.split("\t", 1)
+            ck.violation("prog-panic:" + prog[:40], "panic (debug assertion / internal invariant) while evaluating or abandoning a program",
+                         {"program": prog, "fuel": int(fuel), "impl": o[:500],
+                          "how_to_replay": "printf '%s\\n' | .build/target/debug/c18 prog" % p.replace("\t", "\\t")})
+    return outs
+
+
+def thunk_eq_probe(ck):
+    """`==` on two thunk values: PartialEq for NickelValue calls PartialEq for Thunk (derived), which
+    compares the inner NickelValue again: unbounded recursion.  Run in a child process."""
+    exe_impl = core.harness_bin("c18")
+    try:
+        p = subprocess.run([exe_impl, "thunkeq"], stdout=subprocess.PIPE, stderr=subprocess.PIPE, timeout=120)
+        rc = p.returncode
+    except subprocess.TimeoutExpired:
+        rc = "timeout"
+    ck.coverage["thunk_partial_eq_probe"] = "exit %s" % rc
+    return rc
+
+
 def run(ck):
     hook = have_hook()
     ck.coverage["hook_H7_present"] = hook
-    if os.path.exists(os.path.join(core.COQ, "Props", "C18.v")):
-        ck.coq("Props.C18", clean=(ck.tier == "thorough"))
+    # 1. translators (fail closed) and proof obligations
+    g = pregen()
+    ck.coverage["generated_tables"] = [
+        {"file": "coq/Gen/StackTables.v", "source": "core/src/eval/stack.rs", "source_sha": g["stack_sha"]},
+        {"file": "coq/Gen/UnsafeSites.v", "sites": len(g["sites"]), "source_sha": g["shas"]}]
+    ck.obligation("translator: stack.rs pairings (impl StackItem, item_size, drop_top, guarded unchecked pops/reads) -> Gen/StackTables.v",
+                  "translator", not g["problems"], "\n".join(g["problems"]))
+    ck.coq("Props.C18", clean=(ck.tier == "thorough"))
+    # 2. builds
     ok = build_harness(ck, hook)
     ck.model_exe = ck.model("C18.v")
     if not ok or not ck.model_exe:
         return
     rng = core.SplitMix64(ck.seed * 1000003 + 18)
+    # 3. value-level histories: model vs implementation (+ shadow oracle inside the harness)
     cases = corpus()
     n = 1500 if ck.tier == "quick" else 30000
     for i in range(n):
@@ -367,17 +516,49 @@ def run(ck):
     for c, a in list(zip(cases, impl_out))[:2]:
         ck.sample({"history": c[:300], "impl_trace": a[:400]})
     ck.coverage["histories"] = len(cases)
+    # 4. stack scripts: model vs the real Stack through the replay hook
+    if hook:
+        scripts = [gen_script(rng.fork(), 60 if rng.chance(1, 8) else 20) for _ in range(1000 if ck.tier == "quick" else 20000)]
+        run_stack(ck, scripts)
+        ck.coverage["stack_scripts"] = len(scripts)
+    else:
+        ck.coverage["stack_scripts"] = "hook H7 absent: the stack model is tied by the generated tables and the site ledger only"
+    # 5. whole programs: completing, failing, budget-exhausted (abandoned mid-evaluation)
+    progs = gen_programs(rng.fork(), 300 if ck.tier == "quick" else 6000)
+    outs = run_progs(ck, progs)
+    ck.coverage["programs"] = len(progs)
+    if outs:
+        ck.sample({"program": progs[0][:200], "outcome": outs[0][:120]})
     ck.coverage["rule"] = ("history = seeded random sequence of value-level operations (constructors of every block kind, "
                            "clone, drop, content_make_mut / content_mut + mutation, strong_clone, with_pos_idx, lens take/restore, "
                            "thunk <-> value conversions, thunk get/mk_update_frame/update/reset/lock/revert/build_cached/"
-                           "into_closure/saturate/map); ~5% of slot references are stale on purpose; non-trivial = >= 6 ops with a clone/frame/revert")
+                           "into_closure/saturate/map); ~5% of slot references are stale on purpose; non-trivial = >= 6 ops with a clone/frame/revert. "
+                           "stack script = random pushes of the 10 item kinds / typed pops / pop_arg / peek / clear_eqs / unwind / drop_top. "
+                           "program = template x parameters x step budget in {0,7,40,200,1000,5000,unbounded}")
+    ck.coverage["partial"] = ("proved: reference-count, unique-access, move-out, thunk-tag and stack-marker PROTOCOLS for every history of the modelled operations; "
+                              "sampled only: layout, bit patterns, transmutes, provenance, allocator, the tag/type pairing of checked decodes, "
+                              "and the evaluator's use of these APIs (whole programs under debug assertions; Miri / AddressSanitizer in the thorough tier)")
+    ck.trusted += ["extraction: ExtrOcamlBasic + ExtrOcamlNativeString", "harness bin c18 (shadow oracle: plain-Rust value-semantics mirror)",
+                   "hook H7 (verif_ref_count, stack_replay)" if hook else "no hook: counts observed as unique/shared only",
+                   "translator checks/c18_translate.py (syntactic)", "generators checks/c18.py (SplitMix64, VERIF_SEED)"]
+    ck.assumptions += ["the hand-written model of mod.rs / lens.rs / lazy.rs (tied by exact reference counts on generated histories)",
+                       "std::rc::Rc, RefCell, Vec, HashMap, IndexMap, imbl-sized-chunks behave as documented",
+                       "arrays of the histories have fewer than 32 elements (single-leaf vectors); environments of revertible thunks are empty"]
+    if ck.tier == "thorough":
+        sanitizers(ck, rng, cases, progs)
 
 
 def replay(ck, path):
-    import json
     obj = json.load(open(path))
     hook = have_hook()
+    pregen()
     ok = build_harness(ck, hook)
     ck.model_exe = ck.model("C18.v")
-    if ok and ck.model_exe and "case" in obj:
+    if not ok or not ck.model_exe:
+        return
+    if "case" in obj:
         run_hist(ck, [obj["case"]], hook)
+    if "stack_script" in obj and hook:
+        run_stack(ck, [obj["stack_script"]])
+    if "program" in obj:
+        run_progs(ck, ["%d\t%s" % (obj.get("fuel", 2000000), obj["program"])])
